@@ -84,3 +84,58 @@ impl Arena {
     AV { cap: self.cap as int, data_offset: self.data_offset as int, ro: self.ro, freelist: self.freelist }
   }
 }
+
+impl Arena {
+  /// `(&mut *self.inner.as_ptr()).clear()`: Memory::clear, proved against this very contract in U_memory (C17);
+  /// Arena::data_offset / cap are the values cached from the Memory at construction
+  #[verifier::external_body]
+  pub fn memory_clear(&self, st: &mut St)
+    requires
+      old(st)@.writable, // [C09]
+      old(st)@.bytes.len() == self.cap as int, old(st)@.lo == self.data_offset as int, self.data_offset <= self.cap,
+    ensures
+      final(st).list == old(st).list,
+      final(st)@.allocated == self.data_offset as int, final(st)@.discarded == 0, final(st)@.min_seg == old(st)@.min_seg,
+      final(st)@.sentinel == enc(SENTINEL_SEGMENT_NODE_SIZE, SENTINEL_SEGMENT_NODE_OFFSET),
+      all_zero(final(st)@.bytes, self.data_offset as int, self.cap as int),
+      same_outside(old(st)@.bytes, final(st)@.bytes, self.data_offset as int, self.cap as int),
+      final(st)@.writable == old(st)@.writable && final(st)@.lo == old(st)@.lo,
+  { unimplemented!() }
+}
+
+/// stands for `&mut Memory` obtained from `self.inner.as_mut()` in Arena::truncate
+pub struct MemTok {}
+pub struct IoError {}
+impl MemTok {
+  pub fn of(a: &Arena) -> (r: MemTok) { MemTok {} }
+  /// ASSUMED contract of Memory::truncate(allocated, size) (Vec: new zeroed buffer + copy of the first `allocated`
+  /// bytes; anon map: same; file map: re-map).  Checked bounded by the Kani harness `truncate_vec_*`.
+  #[verifier::external_body]
+  pub fn truncate(&self, st: &mut St, allocated: usize, size: usize)
+    requires allocated as int <= old(st)@.bytes.len(), allocated <= size, size as int <= u32::MAX as int, // [C18]
+    ensures
+      final(st).hdr == old(st).hdr, final(st).list == old(st).list,
+      final(st)@.sentinel == old(st)@.sentinel, final(st)@.writable == old(st)@.writable, final(st)@.lo == old(st)@.lo,
+      final(st)@.bytes.len() == size as int,
+      final(st)@.bytes.subrange(0, allocated as int) == old(st)@.bytes.subrange(0, allocated as int),
+  { unimplemented!() }
+  /// memmap variant: may fail with an I/O error, then nothing changed
+  #[verifier::external_body]
+  pub fn truncate_io(&self, st: &mut St, allocated: usize, size: usize) -> (r: Result<(), IoError>)
+    requires allocated as int <= old(st)@.bytes.len(), allocated <= size, size as int <= u32::MAX as int, // [C18]
+    ensures
+      r.is_err() ==> *final(st) == *old(st),
+      r.is_ok() ==> final(st).hdr == old(st).hdr && final(st).list == old(st).list
+        && final(st)@.sentinel == old(st)@.sentinel && final(st)@.writable == old(st)@.writable && final(st)@.lo == old(st)@.lo
+        && final(st)@.bytes.len() == size as int
+        && final(st)@.bytes.subrange(0, allocated as int) == old(st)@.bytes.subrange(0, allocated as int),
+  { unimplemented!() }
+  #[verifier::external_body]
+  pub fn as_mut_ptr(&self, st: &St) -> (r: *mut u8) { unimplemented!() }
+  #[verifier::external_body]
+  pub fn cap(&self, st: &St) -> (r: u32)
+    requires st@.bytes.len() <= u32::MAX as int,
+    ensures r as int == st@.bytes.len(),
+  { unimplemented!() }
+}
+pub fn io_read_only_error() -> IoError { IoError {} }
